@@ -220,7 +220,8 @@ func (r *Reader) eachByte(b byte) {
 				}
 			*/
 			r.state = readerStateClean
-			if r.HandleSysex {
+			// a sysex that does not fit into the buffer (F7 included) is ignored
+			if r.HandleSysex && r.sysexlen < len(r.sysexBf) {
 				r.sysexBf[r.sysexlen] = b
 				r.sysexlen++
 				//go
@@ -246,7 +247,9 @@ func (r *Reader) eachByte(b byte) {
 			return
 		}
 
-		if r.HandleSysex {
+		// when the buffer is full the rest of the sysex is dropped (the closing F7
+		// will not fit either, so the whole message is ignored)
+		if r.HandleSysex && r.sysexlen < len(r.sysexBf) {
 			r.sysexBf[r.sysexlen] = b
 			r.sysexlen++
 		}
